@@ -597,6 +597,9 @@ LINKFILE_CASES = [
     (".cap file: path is the walked file, last block", "/SB/file.txt", ["Name=Cap title", "Numb=2"],
      {"selector": "/SB/file.txt", "name": "Cap title", "num": 2}, "stop"),
     ("no Path= line: no entry", None, ["Name=Nothing", ""], None, "continue"),
+    ("negative number (sorts last)", None, ["Path=./z", "Numb=-2", ""], {"selector": "/SB/z", "needsmerge": True, "num": -2}, "continue"),
+    ("unparsable number and port are ignored", None, ["Path=/q", "Numb=first", "Host=other.example", "Port=gopher", ""],
+     {"selector": "/q", "host": "other.example"}, "continue"),
 ]
 
 
